@@ -318,7 +318,7 @@ func mixGrow(w *W, idx, rep int) map[string]int64 {
 		})
 	}
 	parallel(fns...)
-	return map[string]int64{"rows_inserted": inserted, "reads": reads, "blocks_grown": int64(c.Count() >> 14), "commits": hook.commits}
+	return map[string]int64{"rows_inserted": inserted, "reads": reads, "blocks_grown": int64(c.Count() >> 14), "commits": atomic.LoadInt64(&hook.commits)}
 }
 
 // offset reuse: inserts and deletes beside readers
@@ -387,7 +387,7 @@ func mixReuse(w *W, idx, rep int) map[string]int64 {
 		})
 	}
 	parallel(fns...)
-	return map[string]int64{"inserts": ins, "deletes": del, "reads": reads, "commits": hook.commits}
+	return map[string]int64{"inserts": ins, "deletes": del, "reads": reads, "commits": atomic.LoadInt64(&hook.commits)}
 }
 
 // snapshots and restores (into other collections) beside multi-block writers
@@ -462,7 +462,7 @@ func mixSnapshot(w *W, idx, rep int) map[string]int64 {
 		}
 	})
 	parallel(fns...)
-	return map[string]int64{"snapshots": snaps, "restores_into_other_collections": restores, "commits_while_a_snapshot_was_running": overlapped, "commits": hook.commits}
+	return map[string]int64{"snapshots": snaps, "restores_into_other_collections": restores, "commits_while_a_snapshot_was_running": overlapped, "commits": atomic.LoadInt64(&hook.commits)}
 }
 
 // index / sorted index / trigger creation and removal beside writers and readers
@@ -474,7 +474,13 @@ func mixSchema(w *W, idx, rep int) map[string]int64 {
 	defer hook.remove()
 	c.Query(func(txn *column.Txn) error {
 		for i := 0; i < 20000; i++ {
-			txn.Insert(func(r column.Row) error { writeTag(r, int64(i)); return nil })
+			txn.Insert(func(r column.Row) error {
+				writeTag(r, int64(i))
+				if i < 16384 {
+					r.SetInt64("m", 1) // column m has values in block 0 only
+				}
+				return nil
+			})
 		}
 		return nil
 	})
@@ -513,6 +519,9 @@ func mixSchema(w *W, idx, rep int) map[string]int64 {
 			c.CreateSortIndex(sname, "s")
 			tname := fmt.Sprintf("tg%d", i)
 			c.CreateTrigger(tname, "u", func(r column.Reader) {})
+			mname := fmt.Sprintf("ixm%d", i)
+			c.CreateIndex(mname, "m", func(r column.Reader) bool { return r.Int() > 0 }) // no value of m in block 1
+			c.DropIndex(mname)
 			atomic.StoreInt32(&building, 0)
 			atomic.AddInt64(&built, 3)
 			c.Query(func(txn *column.Txn) error {
@@ -537,7 +546,7 @@ func mixSchema(w *W, idx, rep int) map[string]int64 {
 		})
 	}
 	parallel(fns...)
-	return map[string]int64{"computed_columns_built": built, "dropped": dropped, "commits_while_building": overlapped, "reads": reads, "commits": hook.commits}
+	return map[string]int64{"computed_columns_built": built, "dropped": dropped, "commits_while_building": overlapped, "reads": reads, "commits": atomic.LoadInt64(&hook.commits)}
 }
 
 // key table under parallel upserts of disjoint keys
@@ -569,7 +578,7 @@ func mixKeys(w *W, idx, rep int) map[string]int64 {
 		})
 	}
 	parallel(fns...)
-	return map[string]int64{"key_operations": ops, "commits": hook.commits}
+	return map[string]int64{"key_operations": ops, "commits": atomic.LoadInt64(&hook.commits)}
 }
 
 // enum interning of new strings from several blocks beside readers
@@ -628,7 +637,7 @@ func mixEnum(w *W, idx, rep int) map[string]int64 {
 		})
 	}
 	parallel(fns...)
-	return map[string]int64{"enum_stores_of_new_strings": writes, "reads": reads, "commits": hook.commits}
+	return map[string]int64{"enum_stores_of_new_strings": writes, "reads": reads, "commits": atomic.LoadInt64(&hook.commits)}
 }
 
 // the cleanup goroutine (1 ms interval) deleting expired rows beside writers, extenders and readers
@@ -686,7 +695,7 @@ func mixVacuum(w *W, idx, rep int) map[string]int64 {
 		})
 	}
 	parallel(fns...)
-	return map[string]int64{"inserts": ins, "reads": reads, "rows_left": int64(c.Count()), "commits": hook.commits}
+	return map[string]int64{"inserts": ins, "reads": reads, "rows_left": int64(c.Count()), "commits": atomic.LoadInt64(&hook.commits)}
 }
 
 func init() {
@@ -703,7 +712,7 @@ func init() {
 				{Cases: n, Workers: 2, MaxProcs: 8, Timeout: 40 * time.Minute, HangIsViol: true}}
 		},
 		Run: func(w *W, phase, idx int) {
-			withWatchdog(w, idx, fmt.Sprintf("E3:torn:round%d", idx+100*phase), 10*time.Minute, func() { tornRound(w, idx+100*phase) })
+			withWatchdog(w, idx, fmt.Sprintf("E3:torn:round%d", idx+100*phase), 5*time.Minute, func() { tornRound(w, idx+100*phase) })
 		},
 		MinEvents: map[string]int64{"reader_callbacks": 10000, "reader_callbacks_overlapping_a_commit": 1000},
 	})
@@ -719,7 +728,7 @@ func init() {
 		},
 		Run: func(w *W, phase, idx int) {
 			mix := raceMixes[idx%len(raceMixes)]
-			withWatchdog(w, idx, fmt.Sprintf("E3:race:%s:rep%d", mix.name, idx/len(raceMixes)), 10*time.Minute, func() { raceRound(w, idx) })
+			withWatchdog(w, idx, fmt.Sprintf("E3:race:%s:rep%d", mix.name, idx/len(raceMixes)), 5*time.Minute, func() { raceRound(w, idx) })
 		},
 		Post:      collectRaces,
 		MinEvents: map[string]int64{"rounds_completed": 6, "grow-vs-read.reads": 1000, "schema-beside-writers.commits_while_building": 10, "snapshot-restore.commits_while_a_snapshot_was_running": 10},
